@@ -512,6 +512,154 @@ def shrink_manager_case(case, build):
     return cur
 
 
+# ---- histories of load / copy_expr_from / assignment on ONE target manager ------------------------
+
+TKEYS = {**{f"t{k}": 0 for k in range(6)}, "q": 0, "z": 0}
+B_INNER = leaf("b", ["inner"])
+D_INNER = leaf("d", ["inner"])
+
+
+def gen_source(rng):
+    """a source manager: containers a (inputs), c (targets), g; returns its history and its final
+    definitions in the order of the tasks dict"""
+    ntg = rng.randint(2, 5)
+    history, defs = [], {}
+
+    def assign(tgt, val):
+        history.append([tgt, val])
+        key = json.dumps(tgt)
+        defs.pop(key, None)
+        if val[0] != "const":
+            defs[key] = [tgt, val]
+    for k in list(range(ntg)) + [rng.randrange(ntg) for _ in range(rng.randint(0, 2))]:
+        tgt = leaf("c", [f"t{k}"])
+        if rng.random() < 0.1 and json.dumps(tgt) in defs:
+            assign(tgt, ["const", L(rng.choice([1, 2.5, -4]))])
+        else:
+            assign(tgt, gen_num_expr(rng, "a", "c", k))
+    if rng.random() < 0.4:
+        assign(leaf("g", ["u"]), gen_num_expr(rng, "a", "c", ntg))
+    if rng.random() < 0.3:
+        assign(leaf("c", ["q"]), ["top", "a", 0])
+    return {"data": {"a": D(INPUT), "c": D(TKEYS), "g": D({"u": 0})}, "history": history, "defs": list(defs.values())}
+
+
+def gen_multistep_case(rng):
+    sources = [gen_source(rng) for _ in range(rng.choice([1, 2, 2]))]
+    target = {"data": {"a": D(INPUT), "b": D({"inner": INPUT, "a": 1}), "c": D(TKEYS), "d": D({"inner": TKEYS, "c": 1}), "g": D({"u": 0})}}
+    ops = []
+    for _ in range(rng.randint(3, 6)):
+        k = rng.random()
+        si = rng.randrange(len(sources))
+        ow = rng.random() < 0.6
+        if k < 0.2:
+            ops.append(["load", si, ow])
+        elif k < 0.45:
+            ops.append(["copy", si, "c", [], ow])
+        elif k < 0.75:
+            ops.append(["copy", si, "c", [["a", B_INNER]], ow])
+        elif k < 0.85:
+            ops.append(["copy", si, "c", [["a", B_INNER], ["c", D_INNER]], ow])
+        else:
+            kk = rng.randrange(5)
+            val = ["const", L(rng.choice([5, -1.5, 0]))] if rng.random() < 0.4 else gen_num_expr(rng, "a", "c", kk)
+            ops.append(["assign", leaf("c", [f"t{kk}"]), val])
+    return {"sources": sources, "target": target, "ops": ops}
+
+
+def multistep_corpus():
+    """a rebinding copy followed by plain copies / loads that mention the rebound label"""
+    mul = lambda k: ["bin", "MulExpr", leaf("a", [k]), ["const", L(2)]]
+    src = {"data": {"a": D(INPUT), "c": D(TKEYS), "g": D({"u": 0})},
+           "history": [[leaf("c", ["t0"]), ["bin", "AddExpr", leaf("a", ["x"]), leaf("a", ["y"])]], [leaf("c", ["t1"]), mul("x")]],
+           "defs": [[leaf("c", ["t0"]), ["bin", "AddExpr", leaf("a", ["x"]), leaf("a", ["y"])]], [leaf("c", ["t1"]), mul("x")]]}
+    target = {"data": {"a": D(INPUT), "b": D({"inner": INPUT, "a": 1}), "c": D(TKEYS), "d": D({"inner": TKEYS, "c": 1}), "g": D({"u": 0})}}
+    return [{"sources": [src], "target": target,
+             "ops": [["copy", 0, "c", [["a", B_INNER]], True], ["copy", 0, "c", [], True], ["load", 0, True],
+                     ["assign", leaf("a", ["x"]), ["const", L(7)]]]},
+            {"sources": [src], "target": target,
+             "ops": [["copy", 0, "c", [["a", B_INNER], ["c", D_INNER]], True], ["load", 0, False], ["copy", 0, "c", [], False],
+                     ["assign", leaf("c", ["t0"]), ["const", L(1)]], ["copy", 0, "c", [["a", B_INNER]], False]]}]
+
+
+def run_multistep(cases, build="compiled", hashseed=0):
+    parts = list(vlib.chunks(cases, max(1, (len(cases) + vlib.NPROC - 1) // vlib.NPROC)))
+    impl = vlib.build_impl()
+    from concurrent.futures import ThreadPoolExecutor
+    with ThreadPoolExecutor(max_workers=vlib.NPROC) as ex:
+        rs = list(ex.map(lambda p: vlib.run_impl("refsprint_runner.py", {"mode": "multistep", "cases": p}, build=build, hashseed=hashseed, impl=impl), parts))
+    out = []
+    for r in rs:
+        out += r["results"]
+    return out
+
+
+def shrink_multistep(case, build):
+    def fails(c):
+        return run_multistep([c], build)[0].get("fail") is not None
+    cur = case
+    i = 0
+    while i < len(cur["ops"]):
+        cand = dict(cur, ops=cur["ops"][:i] + cur["ops"][i + 1:])
+        if cand["ops"] and fails(cand):
+            cur = cand
+        else:
+            i += 1
+    return cur
+
+
+MS_LABELS = [["a", 0], ["b", 0], ["c", 0], ["d", 0], ["g", 0], ["f", 0]]
+
+
+def multistep_correspondence(ctx, cases, results, tag):
+    """model mrun (coq/model/RefsPrint.v) against the dump() of the target manager after every operation"""
+    cid = rc.class_ids()
+    idx = [i for i, r in enumerate(results) if not r.get("skipped") and not r.get("generator_error") and r.get("dumps")]
+    texts, ids = [], []
+    for chunk in vlib.chunks(idx, 60):
+        ft, chars = rc.FloatTokens(), set()
+        items = []
+        for i in chunk:
+            c, r = cases[i], results[i]
+            nsteps = len(r["dumps"])
+            def tm(t):
+                rc.term_chars(t, chars)
+                return rc.emit_term(t, ft, cid)
+            def defs(lst):
+                return "[" + "; ".join(f"({tm(t)}, {tm(e)})" for t, e in lst) + "]"
+            ops = []
+            for op in c["ops"][:nsteps]:
+                if op[0] == "load":
+                    ops.append(f"MLoad {'true' if op[2] else 'false'} {defs(c['sources'][op[1]]['defs'])}")
+                elif op[0] == "copy":
+                    sel = [d for d in c["sources"][op[1]]["defs"] if root_label(d[0]) == op[2]]
+                    binds = "[" + "; ".join(f"({rc.clistN(cps(l))}, {tm(t)})" for l, t in op[3]) + "]"
+                    ops.append(f"MCopy {'true' if op[4] else 'false'} {defs(sel)} {binds}")
+                else:
+                    ops.append(f"MAssign {tm(op[1])} " + ("None" if op[2][0] == "const" else f"(Some {tm(op[2])})"))
+            cs = "[" + "; ".join(f"({rc.clistN(cps(l))}, (TTop {rc.clistN(cps(l))} {'true' if k else 'false'}))" for l, k in MS_LABELS) + "]"
+            dumps = "[" + "; ".join("[" + "; ".join(f"({rc.clistN(a)}, {rc.clistN(b)})" for a, b in d) + "]" for d in r["dumps"]) + "]"
+            items.append(f"({cs}, [" + "; ".join(ops) + f"], {dumps})")
+        texts.append(rc.COQ_HEADER.format(extra="model.RefsPrint run.RunRefsRepr run.RunRefsPrint")
+                     + "Definition cases : list (list (pystr * term) * list mop * list (list (pystr * pystr))) :=\n ["
+                     + ";\n  ".join(items) + "].\n"
+                     + f"Eval vm_compute in (hist_mismatches {rc.clistN(rc.printable_table(chars))} {ft.coq()} cases).\n")
+        ids.append(chunk)
+    mism = []
+    for (rcode, so, se), chunk in zip(vlib.coq_eval_files(ctx, texts, tag), ids):
+        lst = vlib.parse_nat_list(so) if rcode == 0 else None
+        if lst is None:
+            return None, len(idx), f"case evaluation failed (histories): rc={rcode} {se[-600:]} {so[-200:]}"
+        mism += [chunk[k] for k in lst]
+    return mism, len(idx), None
+
+
+def root_label(t):
+    while t[0] in ("item", "attr"):
+        t = t[1]
+    return t[1] if t[0] == "top" else None
+
+
 NODEPS_WITNESS = {
     "data": {"a": D({"x": 1.5}), "c": D({"z": 0})},
     "history": [[leaf("c", ["q"]), ["top", "a", 0]], [leaf("c", ["p"]), ["bin", "MulExpr", leaf("a", ["x"]), ["const", L(2)]]]],
@@ -596,13 +744,39 @@ def run(ctx):
             ctx.nontrivial.add(("mgr", i))
     ctx.obligations.append(("oracle: dump -> load -> same dump, same reaction to follow-ups; copy_expr_from gives the expected definitions "
                             "(rebinding, overwrite) and reactions", not mviol, f"{len(mviol)} failing of {2 * len(mcases)} (history raised in {skipped})"))
+    # -- histories on one target manager (repeated load / copy_expr_from / assignment)
+    hcases = multistep_corpus() + [gen_multistep_case(rng) for _ in range(ctx.pick(150, 5000))]
+    hres = {("compiled", 0): run_multistep(hcases, "compiled", 0), ("pure", 1): run_multistep(hcases, "pure", 1)}
+    generr = [r["generator_error"] for rs in hres.values() for r in rs if r.get("generator_error")]
+    if generr:
+        raise vlib.InfraError("multistep generator: simulated order of the source definitions differs from dump(): " + json.dumps(generr[0])[:800])
+    hviol = [(b, i, r["fail"]) for (b, hs), rs in hres.items() for i, r in enumerate(rs) if r.get("fail")]
+    hsteps = sum(len(r.get("dumps", [])) for r in hres[("compiled", 0)])
+    ctx.evaluations += 2 * hsteps
+    ctx.traces += 2 * sum(1 for r in hres[("compiled", 0)] if r.get("dumps"))
+    for i, c in enumerate(hcases):
+        seen_bind = False
+        for op in c["ops"]:
+            if op[0] == "copy" and op[3]:
+                seen_bind = True
+            elif seen_bind and op[0] in ("load", "copy"):
+                ctx.nontrivial.add(("hist", i))
+    ctx.obligations.append(("oracle: after EVERY operation of a history on one target manager (load | copy_expr_from plain / rebinding | assignment): "
+                            "expected definitions, values equal to a manager defined directly, containers map untouched (identity, no new labels)",
+                            not hviol, f"{len(hviol)} failing of {2 * len(hcases)} histories, {2 * hsteps} operations"))
+    hmism, hcount, herr = multistep_correspondence(ctx, hcases, hres[("compiled", 0)], "h")
+    ctx.obligations.append(("correspondence: model mrun (container map kept by every operation) = dump() after every operation",
+                            herr is None and not hmism, herr or f"{len(hmism)} mismatching of {hcount} histories"))
     ctx.cov["input_distribution"] = {"expressions": len(exprs), "node_counts": dict(sorted(kinds.items())),
-                                     "manager_cases": len(mcases), "histories_skipped_because_the_history_itself_raised": skipped,
+                                     "manager_cases": len(mcases), "multistep_histories": len(hcases), "multistep_operations": hsteps,
+                                     "multistep_ops_by_kind": {k: sum(1 for c in hcases for op in c["ops"] if op[0] == k and (k != "copy" or bool(op[3]) == rb)) for k, rb in (("load", False), ("copy", False), ("assign", False))},
+                                     "multistep_rebinding_copies": sum(1 for c in hcases for op in c["ops"] if op[0] == "copy" and op[3]),
+                                     "multistep_histories_with_a_plain_load_or_copy_after_a_rebinding_copy": sum(1 for k in ctx.nontrivial if isinstance(k, tuple) and k[0] == "hist"), "histories_skipped_because_the_history_itself_raised": skipped,
                                      "copy_modes": {m: sum(1 for c in mcases if len(c["copy"]["bindings"]) == k) for m, k in (("same", 0), ("rebind_input", 1), ("rebind_input_and_target", 2))},
                                      "copy_overwrite_true": sum(1 for c in mcases if c["copy"]["overwrite"])}
     # -- model correspondence
     mism, counts, err = model_correspondence(ctx, exprs, res["compiled"], "e", rebind)
-    corr_ok = err is None and not any(mism.values())
+    corr_ok = err is None and not any(mism.values()) and herr is None and not hmism
     for k, name in (("show", "model show = str(e) byte for byte"), ("tok", "model show_tokens = Python tokenize(str(e))"),
                     ("parse", "model parse = structure of eval(str(e))"), ("rebound", "model parse in a rebinding namespace = structure of eval")):
         ctx.obligations.append((f"correspondence: {name}", err is None and not (mism or {}).get(k),
@@ -623,10 +797,20 @@ def run(ctx):
         r = run_managers([small], b)[0]
         vlib.violation(ctx, {"kind": "oracle-manager", "build": b, "case": small, "failure": r.get("fail") or f,
                              "how_to_replay": "./check C11 --replay <this file>"})
+    elif hviol:
+        b, i, f = hviol[0]
+        small = shrink_multistep(hcases[i], b)
+        r = run_multistep([small], b)[0]
+        vlib.violation(ctx, {"kind": "oracle-history", "build": b, "case": small, "failure": r.get("fail") or f,
+                             "how_to_replay": "./check C11 --replay <this file>"})
     elif not proof_ok or not corr_ok:
         what = list(getattr(ctx, "broken", []))
         if err:
             what.append(err)
+        if herr:
+            what.append(herr)
+        if hmism:
+            what.append(f"model mrun differs from dump() after some operation on {len(hmism)} histories, first: {json.dumps(hcases[hmism[0]]['ops'])[:600]}")
         first = None
         for k in ("show", "tok", "parse", "rebound"):
             if mism and mism.get(k):
@@ -677,6 +861,14 @@ def replay(ctx, data):
             print(f"VIOLATION property=C11 replay=(given) : {r['fail']['what']}")
             return 1
         print("replay: dump/load/copy_expr_from are faithful on this case")
+        return 0
+    if data.get("kind") == "oracle-history" and data.get("case"):
+        r = run_multistep([data["case"]], b)[0]
+        print(json.dumps(r.get("fail"), indent=1)[:3000])
+        if r.get("fail"):
+            print(f"VIOLATION property=C11 replay=(given) : {r['fail']['what']}")
+            return 1
+        print("replay: every operation of the history leaves the expected definitions, values and container map")
         return 0
     print("replay file names a broken theorem/correspondence, no concrete input:", data.get("no_longer_checks"))
     return 1
